@@ -4,11 +4,12 @@
 (* probe judge TraceBytes!JudgeHook).                                            *)
 EXTENDS LmOts
 
-SecretTypes == {"Seed", "SeedAndLmsTreeIdentifier", "ReferenceImplPrivateKey", "LmsPrivateKey", "LmotsPrivateKey"}
+SecretTypes == {"Seed", "SeedFromArray", "SeedAndLmsTreeIdentifier", "ReferenceImplPrivateKey", "LmsPrivateKey", "LmotsPrivateKey"}
 
 (* the least number of secret bytes a populated value of the type holds, for hash output length n *)
 SecretBytes(ty, n) ==
     CASE ty = "Seed"                     -> n             \* master or tree seed
+      [] ty = "SeedFromArray"            -> 32            \* Seed::from([u8; 32]): the whole array of the caller is held
       [] ty = "SeedAndLmsTreeIdentifier" -> n             \* tree seed (+ identifier)
       [] ty = "ReferenceImplPrivateKey"  -> n             \* master seed (+ counter)
       [] ty = "LmsPrivateKey"            -> n             \* tree seed (+ identifier, leaf index)
